@@ -336,11 +336,19 @@ class ScoreEq(Stream):
         return mlang.guarded(f)
 
     def term(self, case, r):
+        # the pair (b, c) when c is b extended by a chord (scores of different lengths), else (a, b)
+        if len(case["c"]) != len(case["b"]):
+            return T(L([mlang.coq_fchord(c) for c in case["b"]]), L([mlang.coq_fchord(c) for c in case["c"]]), B(r["eq"][1][2]))
         return T(L([mlang.coq_fchord(c) for c in case["a"]]), L([mlang.coq_fchord(c) for c in case["b"]]), B(r["eq"][0][1]))
 
     def spec(self, case, r):
         if mlang.is_exc(r):
             return {"sig": "score-eq-raises", "msg": str(r)}
+        objs = [case[k] for k in "abc"]
+        for i in range(3):
+            for j in range(3):
+                if len(objs[i]) != len(objs[j]) and r["eq"][i][j]:
+                    return {"sig": "score-eq-different-length", "msg": f"scores of {len(objs[i])} and {len(objs[j])} chords compare equal"}
         return judge(r, "score", hashable=False)
 
     def nontrivial(self, case, r):
